@@ -14,6 +14,10 @@ save_object, restore_object (C entry points and efuns), with the interposed libc
           restore_object, restore_object(,1)}; 3 save files likewise with 19 symbols x {clear, noclear}
   strings every string of length <= 5 (quick) / 6 (thorough) over ( { [ / " , : } ) ] \\ - . e + 1 through restore_svalue and
           safe_restore_svalue
+  history driver booted with MaxArraySize 8 / MaxMappingSize 8: all histories of length 2..3 over 28 operations
+          {9 texts (valid scalar / flat / nested / class, nested array and nested mapping of limit+1, top-level array of
+          limit+1, damaged mid-container) x {restore_variable, restore_object, restore_object(,1)}, save_variable}; every
+          step's outcome equals the outcome of the same step in a fresh process
   crash   save_object over an existing file: crash before/after each of the first 14 libc calls, each failing with
           EIO/ENOSPC, pad 10/5000/9000 bytes, save_zeros 0/1; a left-over temporary of every length
 """
@@ -34,7 +38,9 @@ RULE = ("values: grammar {int, float, string, array(0..2), mapping(0..2 pairs, i
         "operation; damaged text: every prefix / single substitution (16 symbols) / single deletion of 58 saved texts and of 3 save "
         "files, every string of length <= 5/6 over 16 structural symbols: value or LPC error, sanitizer clean, noclear keeps the "
         "old value on error; fault points: crash before/after and failure (EIO, ENOSPC) of every libc call of save_object over "
-        "an existing file, left-over temporary of every length: save file byte-identical to the old or the complete new one, "
+        "an existing file, left-over temporary of every length; all 22 736 histories of length 2..3 over 28 restore/save operations "
+        "with MaxArraySize/MaxMappingSize 8 (a restore refused by error() inside a nested container): each step's outcome equals "
+        "that of the same step in a fresh process: save file byte-identical to the old or the complete new one, "
         "return value agrees")
 
 
@@ -58,6 +64,7 @@ def _parts(ck, exe, quick, deadline):
     ck.enum(exe, ["--part=chain"], "chain", batch=2, deadline_s=deadline)
     ck.enum(exe, ["--part=leaves"], "leaves", batch=60, deadline_s=deadline)
     ck.enum(exe, ["--part=crash"], "crash", batch=8, deadline_s=deadline, timeout_ms=30000)
+    ck.enum(exe, ["--part=history"], "history", batch=100, deadline_s=deadline, timeout_ms=30000)
     if quick:
         ck.enum(exe, ["--part=damage", "--ntexts=29"], "damage", batch=200, deadline_s=deadline)
         ck.enum(exe, ["--part=strings", "--slen=5"], "strings", batch=16, deadline_s=deadline, timeout_ms=60000)
@@ -97,6 +104,7 @@ def mut_run(ck, exes):
     ck.enum(exe, ["--part=chain"], "m-chain", batch=2)
     ck.enum(exe, ["--part=leaves"], "m-leaves", batch=60)
     ck.enum(exe, ["--part=crash"], "m-crash", batch=8)
+    ck.enum(exe, ["--part=history"], "m-history", batch=100)
     ck.enum(exe, ["--part=damage"], "m-damage", batch=200)
     ck.enum(exe, ["--part=strings", "--slen=4"], "m-strings", batch=16)
     ck.enum(exe, ["--part=struct", "--nl=1", "--depth=2"], "m-struct", batch=4)
@@ -105,10 +113,11 @@ def mut_run(ck, exes):
 def selftest(ck):
     exe = build(ck)["h_c16"]
     bad = 0
-    for st, part, frag in ((1, "leaves", "C16:selftest:value-changed"), (2, "crash", "save-file-neither-old-nor-new"), (3, "strings", "C16:selftest:parser-state-not-reset")):
+    for st, part, frag in ((1, "leaves", "C16:selftest:value-changed"), (2, "crash", "save-file-neither-old-nor-new"), (3, "strings", "C16:selftest:parser-state-not-reset"),
+                           (4, "history", "C16:history:")):
         ck2 = vlib.Check("C16", "quick", 0, LEVEL)
         args = ["--part=" + part, "--selftest=%d" % st] + (["--slen=3"] if part == "strings" else [])
-        ck2.enum(exe, args + (["--to=40"] if part == "leaves" else []), "selftest%d" % st, batch=8)
+        ck2.enum(exe, args + (["--to=40"] if part == "leaves" else ["--to=300"] if part == "history" else []), "selftest%d" % st, batch=8)
         hit = [k for k in ck2.fails if frag in k]
         if not hit:
             print("SELFTEST-FAILED C16 variant %d raised nothing matching %s (got %s)" % (st, frag, sorted(ck2.fails)[:6])); bad = 1
